@@ -57,7 +57,7 @@ def snap_str(t, node):
     return E(f)
 
 
-def run_store(t, v, ops):
+def run_store(t, v, ops, lazy=False):
     try:
         x = mk_val(t, v)
     except Exception:
@@ -69,9 +69,11 @@ def run_store(t, v, ops):
     for k, op in enumerate(ops):
         status = 'ok'
         cost = None
-        # everything is hashed before the op (so that the op's own hashing cost is visible)
-        for vt, vv in views:
-            E(lambda: vv.hash_tree_root())
+        # everything is hashed before the op (so that the op's own hashing cost is visible); in the lazy
+        # variant nothing is hashed or read until the very end
+        if not lazy:
+            for vt, vv in views:
+                E(lambda: vv.hash_tree_root())
         try:
             o = op[0]
             if o in ('child', 'childs', 'childi'):
@@ -89,7 +91,8 @@ def run_store(t, v, ops):
 
                 def run():
                     apply_op(vt, vv, op[2])
-                    views[top][1].hash_tree_root()
+                    if not lazy:
+                        views[top][1].hash_tree_root()
                 _, cost = P.hashes_during(run)
             elif o == 'assign':
                 pt, pv = views[int(op[1])]
@@ -110,17 +113,34 @@ def run_store(t, v, ops):
         except Exception:
             status = 'err'
         out.append('%d.p=%s' % (k, status))
+        if lazy:
+            continue
         if cost is not None and status == 'ok':
             out.append('%d.cost=%d' % (k, cost))
         out.append('%d.views=%s' % (k, ','.join(view_str(vt, vv) for vt, vv in views)))
         out.append('%d.snaps=%s' % (k, ','.join(snap_str(st, sn) for st, sn in snaps)))
+        out.append('%d.hashes=%s' % (k, ''.join(hash_ok(vv) for vt, vv in views)))
+    if lazy:
+        # snapshots first (their roots have never been computed), then the views
+        out.append('end.snaps=%s' % ','.join(snap_str(st, sn) for st, sn in snaps))
+        out.append('end.views=%s' % ','.join(view_str(vt, vv) for vt, vv in views))
     return ';'.join(out)
+
+
+def hash_ok(view):
+    """hash() of a held view against hash() of a brand-new view object over the same backing"""
+    try:
+        return '1' if hash(view) == hash(type(view).view_from_backing(view.get_backing())) else '0'
+    except Exception:
+        return 'E'
 
 
 def run_case(c):
     k = c[0]
     if k == 'store':
         return run_store(c[1], c[2], c[3:])
+    if k == 'storel':
+        return run_store(c[1], c[2], c[3:], lazy=True)
     if k == 'partial':
         import pyimpl_partial
         return pyimpl_partial.run_partial(c[1], c[2], c[3], c[4:])
